@@ -8,7 +8,10 @@
   handlers — for the client chain, the server message chain and the server batch-item chain, which
   are three instances (`Kind`) of one generic definition. Corollaries: the trace is well nested in
   registration order, each stage receives exactly what its predecessor passed and gets back exactly
-  what its successor returned, and the handler runs Π kᵢ times under stages calling `next` kᵢ times.
+  what its successor returned, the innermost continuation acts on the message it is GIVEN (on the
+  server: the handler that runs is the one registered for the operation of the substituted item,
+  and the response echoes that operation), and the handler runs Π kᵢ times under stages calling
+  `next` kᵢ times.
   The pre-fix code (`runOld`: one cursor shared by all invocations of the continuation; the server
   message chain forwarding the original request) is refuted by concrete 2-stage chains.
 
@@ -29,21 +32,21 @@ theorem nextFrom_is_composition (chain : List Stage) (core : Next) (i : Nat) :
   nextFrom_eq_specNext chain core i
 
 /-- 1b. THE PROPERTY: the implemented chain equals the specification, result and trace. -/
-theorem runImpl_eq_runSpec (k : Kind) (chain : List Stage) (core : Core) (m0 c0 : Nat) :
+theorem runImpl_eq_runSpec (k : Kind) (chain : List Stage) (core : Core) (m0 : Msg) (c0 : Nat) :
     runImpl k chain core m0 c0 = runSpec k chain core m0 c0 := by
   unfold runImpl runSpec
   rw [nextFrom_eq_specNext, List.drop_zero]
 
 /-- 1c. the three instances. -/
-theorem client_chain (chain : List Stage) (core : Core) (m0 c0 : Nat) :
+theorem client_chain (chain : List Stage) (core : Core) (m0 : Msg) (c0 : Nat) :
     runImpl .client chain core m0 c0 = runSpec .client chain core m0 c0 :=
   runImpl_eq_runSpec _ _ _ _ _
 
-theorem server_message_chain (chain : List Stage) (core : Core) (m0 c0 : Nat) :
+theorem server_message_chain (chain : List Stage) (core : Core) (m0 : Msg) (c0 : Nat) :
     runImpl .srvmsg chain core m0 c0 = runSpec .srvmsg chain core m0 c0 :=
   runImpl_eq_runSpec _ _ _ _ _
 
-theorem server_item_chain (chain : List Stage) (core : Core) (m0 c0 : Nat) :
+theorem server_item_chain (chain : List Stage) (core : Core) (m0 : Msg) (c0 : Nat) :
     runImpl .srvitem chain core m0 c0 = runSpec .srvitem chain core m0 c0 :=
   runImpl_eq_runSpec _ _ _ _ _
 
@@ -52,11 +55,12 @@ theorem server_item_chain (chain : List Stage) (core : Core) (m0 c0 : Nat) :
 /-- 2a. The trace of a run is ONE well-nested execution of the stages in registration order
     (`WN`, see the model): stage `i+1` is entered only between a `call` and the matching `back` of
     stage `i`, with exactly the message and context stage `i` passed; each such call contains exactly
-    one complete execution of all later stages and of the handler; `back` reports exactly what that
-    execution returned; the entry point returns `finish` of what the first stage returned. -/
-theorem trace_wellNested (k : Kind) (chain : List Stage) (core : Core) (m0 c0 : Nat) :
-    ∃ r, WN (coreResult k) (chain.map Stage.id) m0 c0 r (runImpl k chain core m0 c0).2 ∧
-      (runImpl k chain core m0 c0).1 = finish k r := by
+    one complete execution of all later stages and of the innermost continuation; `back` reports
+    exactly what that execution returned; the innermost continuation behaves as `CoreSem` on the
+    message it is given; the entry point returns `finish` of what the first stage returned. -/
+theorem trace_wellNested (k : Kind) (chain : List Stage) (core : Core) (m0 : Msg) (c0 : Nat) :
+    ∃ r, WN (CoreSem k) (chain.map Stage.id) m0 c0 r (runImpl k chain core m0 c0).2 ∧
+      (runImpl k chain core m0 c0).1 = finish k m0.op r := by
   rw [runImpl_eq_runSpec]
   obtain ⟨tr, htr, hwn⟩ := specNext_NextWN k core (hdrOf k m0) chain m0 c0 St.init
   refine ⟨_, ?_, rfl⟩
@@ -67,60 +71,84 @@ theorem trace_wellNested (k : Kind) (chain : List Stage) (core : Core) (m0 c0 : 
 
 /-- 2b. reading `WN`: a well-nested trace of a non-empty chain starts with the first stage
     receiving the initial message / context and ends with that stage returning the result. -/
-theorem WN_first_last {cr : Out → R} {id : Nat} {rest : List Nat} {m c : Nat} {r : R}
-    {tr : List Event} (h : WN cr (id :: rest) m c r tr) :
+theorem WN_first_last {cs : Msg → Nat → R → List Event → Prop} {id : Nat} {rest : List Nat}
+    {m : Msg} {c : Nat} {r : R} {tr : List Event} (h : WN cs (id :: rest) m c r tr) :
     tr.head? = some (.enter id m c) ∧ tr.getLast? = some (.exit id r) := by
   cases h with
   | stage _ _ _ _ _ parts hp =>
     exact ⟨rfl, List.getLast?_concat ..⟩
 
-/-- 2c. reading `WN`: with no stage left, the trace is exactly one invocation of the handler, with
-    the message / context passed, and the result is the handler's. -/
-theorem WN_core {cr : Out → R} {m c : Nat} {r : R} {tr : List Event} (h : WN cr [] m c r tr) :
-    ∃ n hh o, tr = [.core n m c hh o] ∧ r = cr o := by
+/-- 2c. reading `WN` + `CoreSem`: with no stage left, the trace is what ONE invocation of the
+    innermost continuation with the message / context passed looks like: if the operation of THAT
+    message is routed, exactly one handler invocation, by the handler registered for that operation,
+    on exactly that message and context, the result echoing that operation; otherwise no handler
+    invocation and "operation not supported". -/
+theorem WN_core {k : Kind} {m : Msg} {c : Nat} {r : R} {tr : List Event}
+    (h : WN (CoreSem k) [] m c r tr) :
+    (routed k m.op = true ∧
+      ∃ n hh o, tr = [.core n (handlerOf k m.op) m c hh o] ∧ r = coreResult k o m.op) ∨
+    (routed k m.op = false ∧ tr = [] ∧ r = notRouted k m.op) := by
   cases h with
-  | core n _ _ hh o => exact ⟨n, hh, o, rfl, rfl⟩
+  | core _ _ _ _ hc => exact hc
 
 /-- 2d. reading `WN`: every call of `next` by the first stage is followed by a complete well-nested
     execution of the rest, which received what was passed and whose result is what came back. -/
-theorem WN_calls {cr : Out → R} {id : Nat} {rest : List Nat} {m c : Nat} {r : R}
-    {tr : List Event} (h : WN cr (id :: rest) m c r tr) :
-    ∃ parts : List (Nat × Nat × R × List Event),
+theorem WN_calls {cs : Msg → Nat → R → List Event → Prop} {id : Nat} {rest : List Nat}
+    {m : Msg} {c : Nat} {r : R} {tr : List Event} (h : WN cs (id :: rest) m c r tr) :
+    ∃ parts : List (Msg × Nat × R × List Event),
       tr = .enter id m c :: segsOf id parts ++ [.exit id r] ∧
-      ∀ p ∈ parts, WN cr rest p.1 p.2.1 p.2.2.1 p.2.2.2 := by
+      ∀ p ∈ parts, WN cs rest p.1 p.2.1 p.2.2.1 p.2.2.2 := by
   cases h with
   | stage _ _ _ _ _ parts hp => exact ⟨parts, rfl, hp⟩
 
-/-- 2e. substitution along a pipeline (every stage derives a message and a context from those it
-    received and calls `next` once): stage `i` receives the transformations of stages `0..i-1`
-    applied in registration order to the initial message / context, and the handler is invoked once,
-    with all of them applied. -/
-theorem pipeline_substitution (k : Kind) (ps : List (Nat × Tr × Tr)) (core : Core) (m0 c0 : Nat) :
+/-- 2e. substitution along a pipeline (every stage derives a message — token AND operation — and a
+    context from those it received and calls `next` once): stage `i` receives the transformations of
+    stages `0..i-1` applied in registration order to the initial message / context; the innermost
+    continuation is invoked once with all of them applied, and the handler that runs is the one of
+    the operation passed by the LAST stage (none if that operation is not routed). -/
+theorem pipeline_substitution (k : Kind) (ps : List (Nat × Tr × Nat × Tr)) (core : Core)
+    (m0 : Msg) (c0 : Nat) :
     enters (runImpl k (ps.map pipeStage) core m0 c0).2 = pipeEnters ps m0 c0 ∧
-    coreInputs (runImpl k (ps.map pipeStage) core m0 c0).2 = [pipeOut ps m0 c0] := by
+    coreInputs (runImpl k (ps.map pipeStage) core m0 c0).2 = pipeCore k (pipeOut ps m0 c0) := by
   rw [runImpl_eq_runSpec]
   have := specNext_pipe k core (hdrOf k m0) ps m0 c0 St.init
   simpa [runSpec, mkRun, St.init, enters, coreInputs] using this
 
-/-- non-vacuity: three stages tagging the message with 1, 2, 3 (the second also replaces the
-    context): they receive 7, 71, 712 and the handler 7123 — not 7321, not 7. -/
+/-- non-vacuity: three stages tagging the message with 1, 2, 3; the second rewrites operation 1
+    (handler 1) into operation 2 and replaces the context: they receive 7@1, 71@1, 712@2 and HANDLER 2
+    receives 7123@2 — not handler 1, not 7321, not 7. -/
 example :
-    enters (runSpec .srvmsg
-      ([(1, .tag 1, .tag 1), (2, .tag 2, .const 40), (3, .tag 3, .tag 3)].map pipeStage)
-      ⟨[], .ok 5, []⟩ 7 9).2 = [(1, 7, 9), (2, 71, 91), (3, 712, 40)] ∧
-    coreInputs (runSpec .srvmsg
-      ([(1, .tag 1, .tag 1), (2, .tag 2, .const 40), (3, .tag 3, .tag 3)].map pipeStage)
-      ⟨[], .ok 5, []⟩ 7 9).2 = [(7123, 403)] := by decide
+    enters (runSpec .srvitem
+      ([(1, .tag 1, 1, .tag 1), (2, .tag 2, 2, .const 40), (3, .tag 3, 2, .tag 3)].map pipeStage)
+      ⟨[], .ok 5, []⟩ ⟨7, 1⟩ 9).2 = [(1, ⟨7, 1⟩, 9), (2, ⟨71, 1⟩, 91), (3, ⟨712, 2⟩, 40)] ∧
+    coreInputs (runSpec .srvitem
+      ([(1, .tag 1, 1, .tag 1), (2, .tag 2, 2, .const 40), (3, .tag 3, 2, .tag 3)].map pipeStage)
+      ⟨[], .ok 5, []⟩ ⟨7, 1⟩ 9).2 = [(2, ⟨7123, 2⟩, 403)] := by decide
+
+/-- 2f. the item chain acts on the SUBSTITUTED item: a stage rewriting an item of an operation
+    WITHOUT handler (3) into a routed one (2) gets handler 2 run and a successful item echoing
+    operation 2; rewriting a routed operation into an unrouted one gets no handler run and a failed
+    item ("operation not supported") echoing the new operation. -/
+example :
+    runSpec .srvitem [⟨1, [.setOp 2, .call]⟩] ⟨[], .ok 5, []⟩ ⟨7, 3⟩ 9
+      = (⟨some ⟨5, 2⟩, none⟩,
+         [.enter 1 ⟨7, 3⟩ 9, .call 1 ⟨7, 2⟩ 9, .core 0 2 ⟨7, 2⟩ 9 7 (.ok 5),
+          .back 1 ⟨some ⟨5, 2⟩, none⟩, .exit 1 ⟨some ⟨5, 2⟩, none⟩]) ∧
+    runSpec .srvitem [⟨1, [.setOp 3, .call]⟩] ⟨[], .ok 5, []⟩ ⟨7, 1⟩ 9
+      = (⟨some ⟨failBase + libErr, 3⟩, none⟩,
+         [.enter 1 ⟨7, 1⟩ 9, .call 1 ⟨7, 3⟩ 9,
+          .back 1 ⟨some ⟨0, 3⟩, some libErr⟩, .exit 1 ⟨some ⟨0, 3⟩, some libErr⟩]) := by decide
 
 /-! ### 3. call counts -/
 
-/-- 3a. Under stages that call `next` exactly `kᵢ` times unconditionally (straight-line programs:
-    `kᵢ = 0` is a short-circuit, `kᵢ ≥ 2` a repetition), the innermost handler runs `Π kᵢ` times. -/
-theorem core_runs_product (k : Kind) (chain : List Stage) (core : Core) (m0 c0 : Nat)
-    (hs : ∀ st ∈ chain, st.Straight) :
+/-- 3a. Under stages that call `next` exactly `kᵢ` times unconditionally (straight-line programs
+    that keep the operation: `kᵢ = 0` is a short-circuit, `kᵢ ≥ 2` a repetition) and a request whose
+    operation has a handler, the handler runs `Π kᵢ` times. -/
+theorem core_runs_product (k : Kind) (chain : List Stage) (core : Core) (m0 : Msg) (c0 : Nat)
+    (hs : ∀ st ∈ chain, st.Straight) (hr : routed k m0.op = true) :
     coreEvents (runImpl k chain core m0 c0).2 = prodL (chain.map Stage.mult) := by
   rw [runImpl_eq_runSpec]
-  have := (specNext_NextCount k core (hdrOf k m0) chain hs m0 c0 St.init).2
+  have := (specNext_NextCount k core (hdrOf k m0) m0.op hr chain hs m0 c0 St.init rfl).2
   simpa [runSpec, mkRun, St.init, coreEvents] using this
 
 /-- 3b. … and every stage `j` is entered `Π_{i<j} kᵢ` times: apply 3a to the prefix — the trace of a
@@ -138,17 +166,17 @@ theorem chain_append (pre post : List Stage) (core : Next) :
 example :
     coreEvents (runImpl .client
       [⟨1, [.call, .call]⟩, ⟨2, [.setMsg (.tag 2), .call, .call, .call]⟩, ⟨3, [.call]⟩,
-       ⟨4, [.call, .setCtx (.tag 4), .call, .ret (.fixed ⟨some 7, none⟩), .call]⟩]
-      ⟨[.err 1], .ok 5, []⟩ 1 1).2 = 12 := by
-  rw [core_runs_product _ _ _ _ _ (by decide)]
+       ⟨4, [.call, .setCtx (.tag 4), .call, .ret (.fixed ⟨some ⟨7, 1⟩, none⟩), .call]⟩]
+      ⟨[.err 1], .ok 5, []⟩ ⟨1, 1⟩ 1).2 = 12 := by
+  rw [core_runs_product _ _ _ _ _ (by decide) (by decide)]
   decide
 
 /-- a short-circuiting stage anywhere in the chain: the handler never runs. -/
 example :
     coreEvents (runImpl .srvitem
       [⟨1, [.call, .call]⟩, ⟨2, [.ret (.fixed ⟨none, some 5⟩)]⟩, ⟨3, [.call]⟩]
-      ⟨[], .ok 5, []⟩ 1 1).2 = 0 := by
-  rw [core_runs_product _ _ _ _ _ (by decide)]
+      ⟨[], .ok 5, []⟩ ⟨1, 2⟩ 1).2 = 0 := by
+  rw [core_runs_product _ _ _ _ _ (by decide) (by decide)]
   decide
 
 /-! ### 4. what the fixes c5825cf / ec9e0d5 repaired -/
@@ -156,39 +184,40 @@ example :
 /-- the pre-fix chain with a stage calling `next` twice followed by a pass-through stage: the second
     call skips the pass-through stage (client chain; cursor shared by all invocations of `next`). -/
 example :
-    runOld .client [⟨1, [.call, .call]⟩, ⟨2, [.call]⟩] ⟨[], .ok 5, []⟩ 1 1
-      ≠ runSpec .client [⟨1, [.call, .call]⟩, ⟨2, [.call]⟩] ⟨[], .ok 5, []⟩ 1 1 := by decide
+    runOld .client [⟨1, [.call, .call]⟩, ⟨2, [.call]⟩] ⟨[], .ok 5, []⟩ ⟨1, 1⟩ 1
+      ≠ runSpec .client [⟨1, [.call, .call]⟩, ⟨2, [.call]⟩] ⟨[], .ok 5, []⟩ ⟨1, 1⟩ 1 := by decide
 
 /-- … what the old code did on it: stage 2 entered once instead of twice. -/
 example :
-    (enters (runOld .client [⟨1, [.call, .call]⟩, ⟨2, [.call]⟩] ⟨[], .ok 5, []⟩ 1 1).2).length = 2 ∧
-    (enters (runSpec .client [⟨1, [.call, .call]⟩, ⟨2, [.call]⟩] ⟨[], .ok 5, []⟩ 1 1).2).length = 3 := by
+    (enters (runOld .client [⟨1, [.call, .call]⟩, ⟨2, [.call]⟩] ⟨[], .ok 5, []⟩ ⟨1, 1⟩ 1).2).length = 2 ∧
+    (enters (runSpec .client [⟨1, [.call, .call]⟩, ⟨2, [.call]⟩] ⟨[], .ok 5, []⟩ ⟨1, 1⟩ 1).2).length = 3 := by
   decide
 
 /-- same defect in the server batch-item chain, with the documented retry pattern (call again while
     the result is a failure): the retried call bypasses the inner stage. -/
 example :
-    runOld .srvitem [⟨1, [.call, .callIfFail]⟩, ⟨2, [.setMsg (.tag 2), .call]⟩] ⟨[.err 1], .ok 5, []⟩ 1 1
+    runOld .srvitem [⟨1, [.call, .callIfFail]⟩, ⟨2, [.setMsg (.tag 2), .call]⟩]
+        ⟨[.err 1], .ok 5, []⟩ ⟨1, 1⟩ 1
       ≠ runSpec .srvitem [⟨1, [.call, .callIfFail]⟩, ⟨2, [.setMsg (.tag 2), .call]⟩]
-          ⟨[.err 1], .ok 5, []⟩ 1 1 := by decide
+          ⟨[.err 1], .ok 5, []⟩ ⟨1, 1⟩ 1 := by decide
 
 /-- same defect in the server message chain. -/
 example :
-    runOld .srvmsg [⟨1, [.call, .call]⟩, ⟨2, [.call]⟩] ⟨[], .ok 5, []⟩ 1 1
-      ≠ runSpec .srvmsg [⟨1, [.call, .call]⟩, ⟨2, [.call]⟩] ⟨[], .ok 5, []⟩ 1 1 := by decide
+    runOld .srvmsg [⟨1, [.call, .call]⟩, ⟨2, [.call]⟩] ⟨[], .ok 5, []⟩ ⟨1, 1⟩ 1
+      ≠ runSpec .srvmsg [⟨1, [.call, .call]⟩, ⟨2, [.call]⟩] ⟨[], .ok 5, []⟩ ⟨1, 1⟩ 1 := by decide
 
 /-- the second defect of the server message chain — the ORIGINAL request was forwarded instead of the
     one given to `next` — shows with stages that each call `next` exactly once: the message
     replaced by stage 1 reaches neither stage 2 nor the handler. -/
 example :
-    coreInputs (runOld .srvmsg [pipeStage (1, .tag 1, .tag 1), pipeStage (2, .tag 2, .tag 2)]
-      ⟨[], .ok 5, []⟩ 7 9).2 = [(7, 912)] ∧
-    coreInputs (runSpec .srvmsg [pipeStage (1, .tag 1, .tag 1), pipeStage (2, .tag 2, .tag 2)]
-      ⟨[], .ok 5, []⟩ 7 9).2 = [(712, 912)] := by decide
+    coreInputs (runOld .srvmsg [pipeStage (1, .tag 1, 1, .tag 1), pipeStage (2, .tag 2, 1, .tag 2)]
+      ⟨[], .ok 5, []⟩ ⟨7, 1⟩ 9).2 = [(1, ⟨7, 1⟩, 912)] ∧
+    coreInputs (runSpec .srvmsg [pipeStage (1, .tag 1, 1, .tag 1), pipeStage (2, .tag 2, 1, .tag 2)]
+      ⟨[], .ok 5, []⟩ ⟨7, 1⟩ 9).2 = [(1, ⟨712, 1⟩, 912)] := by decide
 
 /-- the current code on the first witness: it is the specification (by 1b), here evaluated. -/
 example :
-    (enters (runImpl .client [⟨1, [.call, .call]⟩, ⟨2, [.call]⟩] ⟨[], .ok 5, []⟩ 1 1).2).length = 3 := by
+    (enters (runImpl .client [⟨1, [.call, .call]⟩, ⟨2, [.call]⟩] ⟨[], .ok 5, []⟩ ⟨1, 1⟩ 1).2).length = 3 := by
   rw [runImpl_eq_runSpec]
   decide
 
